@@ -46,11 +46,11 @@ Theorem C16_selects_per_position : forall (A : Type) (l : list A),
   List.length (selects l) = List.length l /\ map fst (selects l) = l.
 Proof. intros A l. split; [apply selects_length | apply selects_members]. Qed.
 
-(** answers: dropped candidates are not unifiable with the arguments, kept ones
-    yield a most general common instance (PARTIAL: see Proofs/Rel.v) *)
-Theorem C16_answers_selected_partial : forall name args cs ans,
+(** answers: exactly the candidates unifiable with the arguments are kept (dropped
+    ones are not unifiable, kept ones are), each as a most general common instance *)
+Theorem C16_answers_selected : forall name args cs ans,
   cands name args = Some cs -> answers name args = Some ans -> selected args cs ans.
-Proof. exact answers_selected_partial. Qed.
+Proof. exact answers_selected. Qed.
 
 (** instantiating a call further selects a subset of the tuples *)
 Theorem C16_instance_selects_subset : forall args th c,
@@ -65,7 +65,7 @@ Theorem C16_characters_not_bytes : forall s p q,
 Proof. exact concat_lengths_in_characters. Qed.
 
 Print Assumptions C16_subs_exact.
-Print Assumptions C16_answers_selected_partial.
+Print Assumptions C16_answers_selected.
 Print Assumptions C16_characters_not_bytes.
 Print Assumptions C16_between_ascending.
 
